@@ -98,7 +98,13 @@ def gen_step(rng, st: State):
             return {"m": m, "keys": ks}
         if m == "rename_columns" and plain:
             ks = rng.sample(plain, 1 if rng.random() < 0.7 else min(2, len(plain)))
-            return {"m": m, "map": {k: f"{k}_x" for k in ks}}
+            mp = {}
+            for k in ks:
+                new = f"{k}_x"
+                while new in keys or new in mp.values():   # never onto a live key
+                    new += "x"
+                mp[k] = new
+            return {"m": m, "map": mp}
         if m == "update_column" and keys:
             k = rng.choice(keys)
             return {"m": m, "key": k, "kw": gen_update(rng, st, k)}
